@@ -19,7 +19,7 @@ CHECKS = {
     "C04": ("Theorems (index tables without repetition are bijections refusing unknown names; init functions put an override in "
             "exactly the indexed slot; validated rhs / monitor_values write slot index(name); argument order changes formals only) "
             "+ correspondence: implementation's tables = mirror's tables, validators on exported skeletons (remove_unused on/off), "
-            "per-backend slot probing against the reference meaning, all 6 + 24 argument orders called positionally.",
+            "per-backend slot probing against the reference meaning (the C module with and without remove_unused), all 6 + 24 argument orders called positionally.",
             "Gallina model + verified validator on generated code + differential execution across backends/orders"),
     "C05": ("Theorems (validated Euler program = states + dt*rhs slot by slot in every commutative carrier; dt = 0 returns the "
             "states under ring laws; the mirror's Euler function is valid and correct for every accepted item list) + correspondence: valid_euler/valid_rhs on the exported skeletons; direct oracle "
@@ -29,7 +29,7 @@ CHECKS = {
     "C12": ("Theorems (two validated programs of one model return the same array; a validated body never reads an unbound name; "
             "for the mirror generator removal never changes rhs, for every well-formed model) + correspondence: rhs / Euler with and "
             "without removal equal the verified mirror's functions statement by statement; both variants pass the validators against one slot table; direct oracle: rhs and all three schemes "
-            "with/without removal agree bit for bit, same index tables and lengths, NameError counted as failure.",
+            "with/without removal agree bit for bit, same index tables and lengths, NameError counted as failure; every other model generated with a missing_values request (read and unread names) served by the same generator object.",
             "Gallina model + verified validator on both variants + differential execution"),
     "C06": ("Theorems (validated program = x + (f/g)(exp(g dt)-1) / guarded form / Euler per slot for every carrier with field "
             "laws; the mirror of the Rush-Larsen generator passes the validator for every well-formed model, stiff set and mode "
@@ -69,7 +69,7 @@ CHECKS = {
             "halves is declared in two components; a sub-model fed the full model's values reproduces every quantity, for every carrier; "
             "validated missing_values writes the requested names) + correspondence: Load.to_ode / Load.minus vs to_ode() / __sub__ "
             "(layouts, missing variables), validators on the halves' functions; direct: both halves of every component split, "
-            "remove_unused off/on, fed from the full model, compared by name (rhs, monitored values, Euler, generalized RL, missing_values).",
+            "remove_unused off/on, fed from the full model, compared by name (rhs, monitored values, Euler, generalized RL, missing_values); the jax modules of the halves against numpy's on every sixth model; two directed models whose keyword-named variables cross the split.",
             "Gallina model of the split + transfer theorem + differential execution of both halves"),
     "C14": ("Theorems (over the batch carrier a function body executed on a batch gives, in column j, the result for column j alone, "
             "and fails exactly when the single-column call fails; every expression is evaluated column by column - for every body, width "
@@ -101,7 +101,7 @@ CHECKS = {
             "point, for any number of singularities and every carrier with selection laws; nothing changes without removable "
             "singularities; the summed combination the code uses equals the nested one for one singularity - C16_partial - and counts "
             "the expression k times for k - refuted, known finding) + direct: ode vs remove_singularities() on and off the singular "
-            "points for 0-3 singularities built from 13 blocks (zeros of a denominator, x log|x| shapes, quotients with a common factor; each block at least once per run), single and split layouts, limits re-checked with 50-digit arithmetic.",
+            "points for 0-3 singularities built from 18 blocks (zeros of a denominator, x log|x| shapes, quotients with a common factor, singular points at a parameter / a product of parameters; each block at least once per run), single and split layouts, limits re-checked with 50-digit arithmetic.",
             "Gallina model of both combinations with theorems + on/off-singularity differential execution"),
     "C19": ("Theorems (a validated body binds each name exactly once and never one of the function's own formals dt / t / time; "
             "consistent renaming of identifiers preserves the value of every expression and renames exactly the occurring names) + "
